@@ -68,7 +68,7 @@ pub open spec fn lc_accepts_one(s: SS, vk: &Params, com: &LinCodePCCommitment, v
 pub open spec fn sqn_seq(s: SS, n: nat) -> Seq<FS> { Seq::new(n, |i: int| sp_sqn_fe(s, n, i as nat)) }
 #[verifier::opaque]
 pub open spec fn lc_paths_authentic(s: SS, vk: &Params, com: &LinCodePCCommitment, pr: &LinCodePCProof) -> bool {
-    forall|j: int| 0 <= j < lc_t(vk, com) ==> path_valid(&(#[trigger] pr.opening.paths@[j]), &com.root, col_hash(fviews(pr.opening.columns@[j]@)))
+    forall|j: int| 0 <= j < lc_t(vk, com) ==> path_valid((#[trigger] pr.opening.paths@[j]), com.root, col_hash(fviews(pr.opening.columns@[j]@)))
 }
 
 pub struct LinearCodePCS;
@@ -101,10 +101,14 @@ impl LinearCodePCS {
                 forall|ii: int| 0 <= ii < commitments@.len() ==> (#[trigger] commitments@[ii]).commitment.metadata.n_ext_cols > 0,
                 sponge.st@ == lc_state(old(sponge).st@, vk, commitments@, proof_array@, point_vec_spec(*point), i__c as nat),
                 forall|k: int| 0 <= k < i__c ==> k < proof_array@.len()
+                    && lc_paths_authentic(lc_state(old(sponge).st@, vk, commitments@, proof_array@, point_vec_spec(*point), k as nat), vk, &commitments@[k].commitment, &proof_array@[k])
                     && lc_accepts_one(lc_state(old(sponge).st@, vk, commitments@, proof_array@, point_vec_spec(*point), k as nat), vk, &(#[trigger] commitments@[k]).commitment, values@[k]@, &proof_array@[k], point),
 //@loop 2 kw=for name=it2
-                invariant it2.index@ <= t, indices@.len() == t,
-                    forall|jj: int| 0 <= jj < j__c ==> jj < proof.opening.paths@.len() && (#[trigger] proof.opening.paths@[jj]).leaf_index == indices@[jj],
+                invariant it2.index@ <= t, indices@.len() == t, *root == commitment.root,
+                    col_hashes@.len() == proof.opening.columns@.len(),
+                    forall|ii: int| 0 <= ii < col_hashes@.len() ==> (#[trigger] col_hashes@[ii]) == col_hash(fviews(proof.opening.columns@[ii]@)),
+                    forall|jj: int| 0 <= jj < j__c ==> jj < proof.opening.paths@.len() && (#[trigger] proof.opening.paths@[jj]).leaf_index == indices@[jj]
+                        && path_valid(proof.opening.paths@[jj], *root, col_hash(fviews(proof.opening.columns@[jj]@))),
 //@loop 3 kw=for name=it3
                     invariant it3.index@ <= t, indices@.len() == t,
                         forall|aa: &Vec<Fr>, bb: &Vec<Fr>, cc: Fr| call_requires(check_inner_product, (aa, bb, cc)),
@@ -158,6 +162,8 @@ impl LinearCodePCS {
                 assert forall|jx: int| 0 <= jx < t implies (#[trigger] lc_index(s_i, vk, commitment, proof, pv, jx as nat)) == indices@[jx] by { assert(indices@[jx] == indices@[jx]); }
                 assert(fviews(w@) == encode_spec(fviews(proof.opening.v@), vk));
                 assert(lc_accepts_one(s_i, vk, commitment, value@, proof, point));
+                reveal(lc_paths_authentic);
+                assert(lc_paths_authentic(s_i, vk, commitment, proof));
             }
 //@end
 }
